@@ -102,6 +102,16 @@ impl<'t, 'a> SynGen<'t, 'a> {
         SynGen { t, cfg, names: names.to_vec(), funcs: funcs.to_vec() }
     }
 
+    /// how many `up`s / `downs`: 1-4, now and then more than a byte can count
+    fn amount(&mut self) -> u32 {
+        let a = 1 + self.t.weighted(&[70, 20, 6, 3, 1]) as u32;
+        if a == 5 {
+            250 + self.t.pick(60) as u32
+        } else {
+            a
+        }
+    }
+
     pub fn name(&mut self) -> Name {
         self.names[self.t.pick(self.names.len())].clone()
     }
@@ -438,8 +448,8 @@ impl<'t, 'a> SynGen<'t, 'a> {
             }
             5 => Stmt::While { cond: self.expr(c), body: self.block(depth - 1, false) },
             6 => Stmt::Until { cond: self.expr(c), body: self.block(depth - 1, false) },
-            7 => Stmt::Inc { dest: self.ident(), amount: 1 + self.t.weighted(&[70, 20, 7, 3]) as u32 },
-            8 => Stmt::Dec { dest: self.ident(), amount: 1 + self.t.weighted(&[70, 20, 7, 3]) as u32 },
+            7 => Stmt::Inc { dest: self.ident(), amount: self.amount() },
+            8 => Stmt::Dec { dest: self.ident(), amount: self.amount() },
             9 => Stmt::Input { dest: if self.t.chance(3, 4) { Some(self.lhs(c)) } else { None } },
             10 => Stmt::Output { value: self.expr(c) },
             11 => {
